@@ -31,3 +31,21 @@ macro_rules! verif_harness {
     };
 }
 pub(crate) use verif_harness;
+
+/// An `Arc<T>` whose allocation lives on the caller's stack.  CBMC treats a real `Arc::new` allocation
+/// as an untyped byte array, which makes every access through it roughly ten times more expensive;
+/// this gives the code under test the `Arc` it asks for without the heap object.
+/// Relies on std's `ArcInner` being `#[repr(C)] { strong, weak, data }` (it is, in the pinned toolchain);
+/// the strong count starts at 2 so the value is never freed through the Arc.
+#[repr(C)]
+pub(crate) struct StackArc<T> { strong: std::sync::atomic::AtomicUsize, weak: std::sync::atomic::AtomicUsize, data: T }
+impl<T> StackArc<T> {
+    pub(crate) fn new(data: T) -> Self {
+        StackArc { strong: std::sync::atomic::AtomicUsize::new(2), weak: std::sync::atomic::AtomicUsize::new(1), data }
+    }
+    /// The holder must not move while the returned Arc (or a clone of it) is alive.
+    pub(crate) fn arc(&self) -> std::mem::ManuallyDrop<std::sync::Arc<T>> {
+        std::mem::ManuallyDrop::new(unsafe { std::sync::Arc::from_raw(&self.data as *const T) })
+    }
+    pub(crate) fn get(&self) -> &T { &self.data }
+}
